@@ -94,35 +94,93 @@ def prefixComplete (P : Params) (pre : List Op) (obs : List (List (Nat × Nat)))
 def prefixOk (P : Params) (pre : List Op) (obs : List (List (Nat × Nat))) : Bool :=
   prefixSubset P pre obs && prefixNodup obs && prefixComplete P pre obs
 
-/-- whole-run oracle: one observation per call, and after every call the three clauses hold for
-the calls made so far ("emitted so far = reference join of the arrived prefixes") -/
+/-- what the call `op`, made in state `s` after `ls` / `rs` have arrived, owes: the arriving event
+paired with every earlier-arrived matching partner that is still buffered -/
+def owed (P : Params) (s : St) (ls rs : List Ev) : Op → List (Nat × Nat)
+  | .left e => (rs.filter (fun r => isMatch P e r && buffered s.rbuf r)).map (fun r => (e.id, r.id))
+  | .right e => (ls.filter (fun l => isMatch P l e && buffered s.lbuf l)).map (fun l => (l.id, e.id))
+  | .wm _ => []
+
+/-- clause 4 (per call; in force with eviction too, also after some *other* partner was evicted):
+every call returns at least what it owes — a matching pair of which both events are buffered when
+the second one arrives is emitted by that very call -/
+def owedFrom (P : Params) : St → List Ev → List Ev → List Op → List (List (Nat × Nat)) → Bool
+  | _, _, _, [], _ => true
+  | s, ls, rs, op :: ops, o :: os =>
+    subsetB (owed P s ls rs op) o &&
+      owedFrom P (step P s op).1 (ls ++ leftOf op) (rs ++ rightOf op) ops os
+  | _, _, _, _ :: _, [] => false
+
+/-- whole-run oracle: one observation per call; after every call the three prefix clauses hold for
+the calls made so far ("emitted so far = reference join of the arrived prefixes"); and every call
+returns what it owes -/
 def runOk (P : Params) (ops : List Op) (obs : List (List (Nat × Nat))) : Bool :=
   obs.length == ops.length &&
-    (List.range (ops.length + 1)).all (fun n => prefixOk P (ops.take n) (obs.take n))
+    (List.range (ops.length + 1)).all (fun n => prefixOk P (ops.take n) (obs.take n)) &&
+    owedFrom P init [] [] ops obs
 
 /-- the model's observation sequence -/
 def obsTrace (P : Params) (ops : List Op) : List (List (Nat × Nat)) :=
   (trace P init ops).map (fun out => out.map idPair)
 
-/-- manager level: calls that are not routed to the join deliver nothing; the routed calls
-satisfy `runOk` -/
-def routedObs : List MOp → List (List (Nat × Nat)) → List (List (Nat × Nat))
-  | m :: ms, o :: os => match route m with
-    | some _ => o :: routedObs ms os
-    | none => routedObs ms os
+/-- manager level, for one registered join with routing `rt`: calls that are not routed to the
+join deliver nothing; the routed calls satisfy `runOk` -/
+def routedObsG {M : Type} (rt : M → Option Op) : List M → List (List (Nat × Nat)) → List (List (Nat × Nat))
+  | m :: ms, o :: os => match rt m with
+    | some _ => o :: routedObsG rt ms os
+    | none => routedObsG rt ms os
   | _, _ => []
 
-def unroutedSilent : List MOp → List (List (Nat × Nat)) → Bool
-  | m :: ms, o :: os => (match route m with
+def unroutedSilentG {M : Type} (rt : M → Option Op) : List M → List (List (Nat × Nat)) → Bool
+  | m :: ms, o :: os => (match rt m with
     | some _ => true
-    | none => o.isEmpty) && unroutedSilent ms os
+    | none => o.isEmpty) && unroutedSilentG rt ms os
   | [], [] => true
   | _, _ => false
 
-def mgrOk (P : Params) (ms : List MOp) (obs : List (List (Nat × Nat))) : Bool :=
-  unroutedSilent ms obs && runOk P (ms.filterMap route) (routedObs ms obs)
+def mgrOkG {M : Type} (rt : M → Option Op) (P : Params) (ms : List M) (obs : List (List (Nat × Nat))) : Bool :=
+  unroutedSilentG rt ms obs && runOk P (ms.filterMap rt) (routedObsG rt ms obs)
+
+/-- the single-join manager of the original check (`route`: streams left / right / other) -/
+def routedObs : List MOp → List (List (Nat × Nat)) → List (List (Nat × Nat)) := routedObsG route
+def unroutedSilent : List MOp → List (List (Nat × Nat)) → Bool := unroutedSilentG route
+def mgrOk (P : Params) (ms : List MOp) (obs : List (List (Nat × Nat))) : Bool := mgrOkG route P ms obs
 
 def mgrObsTrace (P : Params) (ms : List MOp) : List (List (Nat × Nat)) :=
   (mgrTrace P init ms).map (fun out => out.map idPair)
+
+/-! ### several joins on one manager
+
+Observation: per manager call (outer list), per registered join in registration order (inner
+list), the id pairs that join's result handler received during the call. -/
+
+/-- first column of a matrix of rows (`none` when a row is empty) -/
+def heads {α : Type} : List (List α) → Option (List α)
+  | [] => some []
+  | [] :: _ => none
+  | (x :: _) :: rows => (heads rows).map (x :: ·)
+
+/-- the matrix without its first column -/
+def tails {α : Type} : List (List α) → List (List α)
+  | [] => []
+  | [] :: rows => [] :: tails rows
+  | (_ :: xs) :: rows => xs :: tails rows
+
+/-- the history one join sees -/
+def joinOps (j : JoinDef) (ms : List JOp) : List Op := ms.filterMap (routeJ j.l j.r)
+
+/-- every call reports exactly one (possibly empty) batch per registered join, and **each join's
+column** satisfies the single-join manager specification for **its own** reference join: the
+history it is compared with consists of the events of its left stream as left events, of its
+right stream as right events, and of the watermarks of both. -/
+def multiOk : List JoinDef → List JOp → List (List (List (Nat × Nat))) → Bool
+  | [], ms, obs => obs.length == ms.length && obs.all (·.isEmpty)
+  | j :: js, ms, obs =>
+    match heads obs with
+    | some col => mgrOkG (routeJ j.l j.r) j.P ms col && multiOk js ms (tails obs)
+    | none => false
+
+def multiObsTrace (js : List JoinDef) (ms : List JOp) : List (List (List (Nat × Nat))) :=
+  (multiTrace (js.map (fun j => (j, init))) ms).map (fun row => row.map (fun out => out.map idPair))
 
 end C14
